@@ -299,5 +299,20 @@ CHECKS["C20"] = {
         {"pkg": "root", "run": "TestVF_C20_Credential", "race": True, "shards": {"quick": 4, "thorough": 8}, "timeout": {"quick": 900, "thorough": 3400}},
         {"pkg": "internal__common", "run": "TestVF_C20_Keystream", "race": True, "shards": {"quick": 2, "thorough": 4}, "timeout": {"quick": 600, "thorough": 3400}},
         {"pkg": "gabikeys", "run": "TestVF_C20_KeyGen", "race": True, "shards": {"quick": 1, "thorough": 4}, "timeout": {"quick": 900, "thorough": 3400}},
+        {"pkg": "keyproof", "run": "TestVF_C20_KeyProofParallel", "race": True, "rapid": {"quick": 30, "thorough": 60}, "timeout": {"quick": 900, "thorough": 3400}},
+    ],
+}
+
+CHECKS["C17"] = {
+    "level": "fault_enumeration",
+    "technique": "property-based testing (rapid) of every key-proof component as a Fiat-Shamir round over generated operands with enumeration of leaf alterations of the proof's JSON (sampled when large, stratified by leaf kind) and honest-algorithm-on-false-witness provers; the four Gennaro proofs on generated good moduli and on moduli of every forbidden shape with factorisation-aware cheating provers that grind the challenge; whole proofs for fresh small keys with wrong statements and altered leaves",
+    "level_text": "Completeness: true statements proven honestly are accepted (also after JSON round trip). Binding: altering any leaf of a component proof, Gennaro proof or whole proof makes verification fail. Soundness is sampled: false statements proven with the honest algorithm, and bad moduli (p^2 q, p^3, p q r, p^2, factor < 1024, N != 5 mod 8, N != 1 mod 3) with best-effort cheating provers, must be rejected.",
+    "level_note": "Weakest claim: soundness against arbitrary cheating provers cannot be established by testing; what is shown is completeness, binding of every component into the challenge, and rejection of the listed shapes under the listed strategies (up to a few thousand challenge grinding attempts). A whole proof costs 15-40 s, so only 1-2 keys per run.",
+    "rule": ("case = one component round / altered leaf / false statement / bad modulus / whole-proof presentation. Non-trivial: all of these (honest rounds over generated operands, every altered leaf, every false or bad instance); distinct by (component, operands, leaf path, mode) / (shape, modulus); leaf kinds covered are listed in classes."),
+    "assumptions": ["math/big, safeprime.Generate for fixture primes"],
+    "units": [
+        {"pkg": "keyproof", "run": "TestVF_C17_Components", "rapid": {"quick": 8, "thorough": 120}, "shards": {"quick": 6, "thorough": 16}, "timeout": {"quick": 900, "thorough": 3400}},
+        {"pkg": "keyproof", "run": "TestVF_C17_Gennaro", "rapid": {"quick": 2, "thorough": 20}, "shards": {"quick": 3, "thorough": 16}, "timeout": {"quick": 900, "thorough": 3400}},
+        {"pkg": "keyproof", "run": "TestVF_C17_Whole", "shards": {"quick": 1, "thorough": 6}, "timeout": {"quick": 900, "thorough": 3400}},
     ],
 }
